@@ -19,7 +19,14 @@ Import ListNotations.
 Definition TAB : ascii := ascii_of_nat 9.
 Definition is_blank (c : ascii) : bool := Ascii.eqb c " "%char || Ascii.eqb c TAB.
 
-Definition strip_eol (l : str) : str := trim_suffix (trim_suffix l [LF]) [CR].
+(** remove one final [x] (linear; GoStr.trim_suffix reverses the string) *)
+Fixpoint chop (x : ascii) (l : str) : str :=
+  match l with
+  | [] => []
+  | [c] => if Ascii.eqb c x then [] else [c]
+  | c :: l' => c :: chop x l'
+  end.
+Definition strip_eol (l : str) : str := chop CR (chop LF l).
 
 (** first value of From / To / Cc / Bcc seen so far *)
 Record hdrs := { h_from : option str; h_to : option str; h_cc : option str; h_bcc : option str }.
